@@ -4,7 +4,7 @@
 # passes without it; then runs the given checks against the changed tree.
 set -u
 D=$(realpath "$1"); shift
-WT=/var/tmp/seedwt
+WT=${SEEDWT:-/var/tmp/seedwt}
 export CARGO_NET_OFFLINE=true
 if [ ! -d $WT ]; then git -C /repo worktree add -q $WT HEAD || exit 2; fi
 cd $WT && git checkout -q -- . && git clean -fdq tests src && git checkout -q --detach $(git -C /repo rev-parse HEAD) 2>/dev/null
